@@ -1049,3 +1049,39 @@ def buffered_writer_flushed_before(fl, target_bb):
         if oc.get('Ok') and fl.cfg.edges_guard(oc['Ok'], target_bb):
             return True
     return False
+
+
+def write_adaptors_forward_flush(ctx, F, rid, files=None):
+    """A crate-local `impl Write for X` whose write() hands the bytes to an inner writer (a field of self) is a pipe: its flush()
+    must reach that same inner writer, or a buffered sink below it keeps its tail after the caller has "flushed" - and writes
+    it when the value is dropped, i.e. after whatever the caller did next (fsync, rename)."""
+    n = 0
+    for p, wb in sorted(F.bodies.items()):
+        if not (p.startswith('<') and p.endswith(' as std::io::Write>::write')):
+            continue
+        if files and not any(wb.file.endswith(f_) for f_ in files):
+            continue
+        wfl = flow_of(wb)
+        inner = set()
+        for cb, ct in wfl.calls(lambda c: c in ('std::io::Write::write', 'std::io::Write::write_all', 'std::io::Write::write_vectored')):
+            for o in wfl.origins(ct['args'][0]):
+                if o.kind == 'param' and o.key == 1 and o.path:
+                    inner.add(tuple(e for e in o.path if not e.startswith('@'))[:1])
+        if not inner:
+            continue
+        fb = F.body(p[:-len('write')] + 'flush')
+        n += 1
+        key = '%s:flush-reaches-the-inner-writer' % p.split(' as ')[0].lstrip('<').split('::')[-1]
+        if fb is None:
+            ctx.undecided(rid, '%s: the flush of this Write adaptor was not found' % key)
+            continue
+        ffl = flow_of(fb)
+        reached = set()
+        for cb, ct in ffl.calls(lambda c: c == 'std::io::Write::flush'):
+            for o in ffl.origins(ct['args'][0]):
+                if o.kind == 'param' and o.key == 1 and o.path:
+                    reached.add(tuple(e for e in o.path if not e.startswith('@'))[:1])
+        ctx.check(inner <= reached, rid, key, 'flush() calls flush() of the field write() writes to',
+                  'this Write adaptor passes the bytes on to its inner writer but its flush() does not flush that writer: a BufWriter underneath keeps '
+                  'its tail in memory after the caller flushed and synced, and writes it on drop - after the file was renamed into place', loc(fb, fb.lo))
+    return n
